@@ -65,10 +65,72 @@ pub fn run(tier: Tier) -> i32 {
             }
         }
     }
+    // every construct of the language computed twice on the same wires: side by side, in both branches,
+    // through a helper called twice, and bound twice - whatever shares a cache must find the first copy
+    let mut repeated_programs = 0u64;
+    {
+        // (name, parameters, result type of E, E)
+        let constructs: [(&str, &str, &str, &str); 22] = [
+            ("add", "a: u8 | b: u8", "u8", "a + b"),
+            ("sub", "a: u8 | b: u8", "u8", "a - b"),
+            ("mul", "a: u8 | b: u8", "u8", "a * b"),
+            ("div", "a: u8 | b: u8", "u8", "a / b"),
+            ("rem", "a: i8 | b: i8", "i8", "a % b"),
+            ("signed-mul", "a: i16 | b: i16", "i16", "a * b"),
+            ("neg", "a: i8 | b: i8", "i8", "-a"),
+            ("lt", "a: u8 | b: u8", "bool", "a < b"),
+            ("signed-ge", "a: i8 | b: i8", "bool", "a >= b"),
+            ("eq", "a: u16 | b: u16", "bool", "a == b"),
+            ("shl", "a: u8 | b: u8", "u8", "a << b"),
+            ("shr-signed", "a: i8 | b: u8", "i8", "a >> b"),
+            ("cast-widen", "a: i8 | b: i8", "i32", "(a as i32) + (b as i32)"),
+            ("index", "a: [u8; 3] | b: usize", "u8", "a[b]"),
+            ("if", "a: u8 | b: u8", "u8", "if a < b { a } else { b }"),
+            ("if-zero-else", "a: u8 | b: bool", "u8", "if b { a } else { 0u8 }"),
+            ("match-range", "a: u8 | b: u8", "u8", "match a { 0u8..=9u8 => b, 10u8 => 1u8, _ => a }"),
+            ("and-or", "a: bool | b: bool", "bool", "(a && b) || (a ^ b)"),
+            ("tuple-eq", "a: (u8, bool) | b: (u8, bool)", "bool", "a == b"),
+            ("array-eq", "a: [u8; 2] | b: [u8; 2]", "bool", "a != b"),
+            // (a join nested in a tuple or an `if` does not type-check against a written array type:
+            // its size is a constant expression; the result is folded instead)
+            ("join", "a: [(u8, u8); 2] | b: [(u8, u8); 2]", "u8", "{ let mut s = 0u8; for (m, x, y) in join(a, b) { if m { s = s ^ x.1 ^ y.1; } } s }"),
+            ("join-keys", "a: [u8; 3] | b: [u8; 2]", "u8", "{ let mut s = 0u8; for (m, k) in join(a, b) { if m { s = s ^ k; } } s }"),
+        ];
+        let mut srcs: Vec<(String, String)> = vec![];
+        for (name, params, rt, e) in constructs {
+            let names: Vec<&str> = params.split(" | ").map(|p| p.split(':').next().unwrap()).collect();
+            let params = &params.split(" | ").collect::<Vec<_>>().join(", ");
+            let args = names.join(", ");
+            srcs.push((format!("{name}/side-by-side"), format!("pub fn main({params}) -> ({rt}, {rt}) {{\n  ({e}, {e})\n}}\n")));
+            srcs.push((format!("{name}/bound-twice"), format!("pub fn main({params}) -> ({rt}, {rt}) {{\n  let p = {e};\n  let q = {e};\n  (q, p)\n}}\n")));
+            srcs.push((format!("{name}/both-branches"), format!("pub fn main({params}, c: bool) -> {rt} {{\n  if c {{ {e} }} else {{ {e} }}\n}}\n")));
+            srcs.push((format!("{name}/helper-twice"), format!("fn f({params}) -> {rt} {{\n  {e}\n}}\npub fn main({params}) -> ({rt}, {rt}) {{\n  (f({args}), f({args}))\n}}\n")));
+            srcs.push((format!("{name}/in-loop"), format!("pub fn main({params}) -> [{rt}; 2] {{\n  let mut r = [{e}; 2];\n  for i in 0usize..2usize {{\n    r[i] = {e};\n  }}\n  r\n}}\n")));
+        }
+        // a for-join loop run twice over the same tables
+        srcs.push(("join-loop/twice".into(), "pub fn main(a: [(u8, u8); 2], b: [(u8, u8); 3]) -> (u8, u8) {\n  let mut s = 0u8;\n  for ((_, x), (_, y)) in join_iter(a, b) {\n    s = s ^ x ^ y;\n  }\n  let mut t = 0u8;\n  for ((_, x), (_, y)) in join_iter(a, b) {\n    t = t ^ x ^ y;\n  }\n  (s, t)\n}\n".to_string()));
+        for (name, src) in &srcs {
+            for dedup in [true, false] {
+                let cfg = crate::subject::Config { register: false, dedup };
+                match crate::subject::compile(src, cfg, Default::default()) {
+                    crate::subject::CompileOutcome::Ok(p) => {
+                        if let Some(c) = crate::subject::ssa_of(&p) {
+                            repeated_programs += 1;
+                            for (kind, detail) in crate::progcheck::structural_scan(c, dedup).into_iter().take(3) {
+                                coll.push(Violation::new("C15", format!("repeated/{name}"), kind, cfg.name(), json!({"kind": "program", "source": src, "config": cfg.name()}), detail));
+                            }
+                        }
+                    }
+                    other => coll.push(Violation::new("C05", format!("repeated/{name}"), "program-not-compiled", cfg.name(), json!({"kind": "program", "source": src}), format!("{other:?}").chars().take(300).collect::<String>())),
+                }
+            }
+        }
+    }
     let mut cov = c01::coverage_json(&fr, "every circuit compiled in families D (data movement: sequences of <=n of 17 movement templates over array/tuple/struct/enum inputs), E, S, P in all configurations, and every circuit built from every reachable builder state of a bounded request-sequence search, is scanned structurally: backward reachability from the outputs (every gate but the two constant gates must be reached), no AND with equal or constant-wire operands, with dedup no two ANDs over the same operand pair; family D additionally requires and_gates()==0; a few programs with 10^5 - 10^6 gates (a product or quotient computed before and after many unrelated ones) are scanned too, so that size-dependent behaviour of the gate cache is seen; non-trivial = program with >=2 distinct observed outputs", &budget);
     if let serde_json::Value::Object(m) = &mut cov {
         m.insert("builder_states_scanned".into(), json!(bfs_states));
         m.insert("large_programs_scanned".into(), json!(large_programs));
+        m.insert("repeated_construct_programs_scanned(22 constructs x {side by side, bound twice, both branches, helper called twice, in a loop}, dedup on and off)".into(), json!(repeated_programs));
         m.insert("large_programs_gates_total".into(), json!(large_gates));
         m.insert("builder_circuits_scanned".into(), json!(bfs_builds));
         m.insert("exhaustive".into(), json!(fr.complete && bfs_complete));
